@@ -422,7 +422,7 @@ structure GoodTree (S : Tree → Prop) (hist : List (Option Tree)) (t : MTree) :
   disk : GoodDisk H S hist t.db
   version : t.version = hist.length
   lastSaved : t.lastSaved = lastOf hist
-  persistedTo : t.persistedTo = hist.length
+  persistedTo : t.persistedTo ≤ hist.length
   latest : t.latest = hist.length
   versions : ∀ v ∈ t.versions, v ≤ hist.length
 
@@ -528,7 +528,7 @@ theorem saveVersion_good (hH : HashOK H) {S : Tree → Prop} (hi : Inj H S) {his
     unfold orphansOf at ho
     have := (List.mem_filter.mp ho).2
     simp only [Bool.and_eq_true, decide_eq_true_eq] at this
-    rw [g.persistedTo] at this
+    have := g.persistedTo
     simp; omega
   have hlat : ¬ (t.version + 1 ≠ t.latest + 1) := by rw [g.version, g.latest]; simp
   unfold saveVersion
@@ -566,7 +566,7 @@ theorem saveVersion_good (hH : HashOK H) {S : Tree → Prop} (hi : Inj H S) {his
           simp only [e]
           apply saveBranch_present hi _ u _ g.disk.cons (hSr u e)
           intro s hs' hv
-          rw [g.persistedTo] at hv
+          have hv : s.version ≤ hist.length := Int.le_trans hv g.persistedTo
           have hm := hs.prov s (by simpa [e, subtreesOpt] using hs') hv
           rw [g.lastSaved] at hm
           cases hl : lastOf hist with
@@ -767,7 +767,7 @@ theorem loadVersion_goodTree {S : Tree → Prop} {hist : List (Option Tree)} {db
   · exact g
   · rfl
   · exact hlast
-  · rfl
+  · exact Int.le_refl _
   · simp only [MTree.latest, MTree.new]
     simp [g.latestOnDisk]
   · intro v hv
@@ -803,7 +803,7 @@ theorem GoodTree.setRoot {S : Tree → Prop} {hist : List (Option Tree)} {t : MT
   ⟨g.disk, g.version, g.lastSaved, g.persistedTo, g.latest, g.versions⟩
 
 theorem goodTree_fresh (S : Tree → Prop) : GoodTree H S [] (MTree.new {}) := by
-  refine ⟨⟨?_, ?_, ?_, ?_⟩, rfl, rfl, rfl, ?_, ?_⟩
+  refine ⟨⟨?_, ?_, ?_, ?_⟩, rfl, rfl, Int.le_refl _, ?_, ?_⟩
   · intro h bz hg; simp [MTree.new] at hg
   · intro v; simp [MTree.new, histAt]
   · intro ot hot; cases hot
